@@ -81,6 +81,7 @@ func registerStateCheck(id, kindParse, kindHist string, or stateOracle, needMode
 			if c.Thorough() {
 				k, kb, t = 4, 3, 5
 			}
+			c.ParseKind = kindParse
 			forEachParseInput(c, k, kb, t, false, func(label, base, input string) {
 				c.Eval()
 				c.R.Traces++
@@ -111,6 +112,7 @@ func registerStateCheck(id, kindParse, kindHist string, or stateOracle, needMode
 				}
 				for _, pre := range []string{"https://", "ws://u@"} {
 					in := pre + string(b) + "/p"
+					c.Cur(kindParse, "", in)
 					c.Eval()
 					c.R.Traces++
 					w := parseWorld("", in)
